@@ -46,6 +46,7 @@ type Interp struct {
 	globals map[*ssa.Global]*value
 	inited  map[*ssa.Package]bool
 	initing int
+	initTop *ssa.Function
 
 	TC     *TermCtx
 	Solver *Solver
@@ -181,7 +182,7 @@ var noInitPkgs = map[string]bool{
 	"context": true, "net/http": true, "internal/reflectlite": true, "internal/godebug": true,
 	"github.com/fatih/color": true, "github.com/spf13/cobra": true, "github.com/spf13/pflag": true,
 	"internal/cpu": true, "internal/bytealg": true, "math/rand": true, "io/fs": true, "path/filepath": true,
-	"internal/oserror": true, "internal/testlog": true, "unsafe": true, "encoding/json": true, "log": true,
+	"internal/oserror": true, "internal/testlog": true, "errors": true, "internal/abi": true, "unsafe": true, "encoding/json": true, "log": true,
 }
 
 func (in *Interp) ensureInit(pkg *ssa.Package) {
@@ -211,6 +212,9 @@ func (in *Interp) ensureInit(pkg *ssa.Package) {
 		in.initing--
 		in.undoOn = saved
 	}()
+	savedTop := in.initTop
+	in.initTop = initFn
+	defer func() { in.initTop = savedTop }()
 	in.callSSA(nil, token.NoPos, initFn, nil, nil)
 }
 
@@ -365,7 +369,7 @@ func (in *Interp) callSSA(caller *frame, callpos token.Pos, fn *ssa.Function, ar
 			fr := &frame{in: in, caller: caller, fn: fn, pos: callpos}
 			return ext(in, fr, fn, args)
 		}
-		if fn.Synthetic == "package initializer" && in.initing > 0 {
+		if fn.Synthetic == "package initializer" && in.initing > 0 && fn != in.initTop {
 			// nested package initialisers are run lazily when first touched
 			in.ensureInit(fn.Pkg)
 			return nil
@@ -414,7 +418,7 @@ func (in *Interp) runFrame(fr *frame) {
 		default:
 			if re, ok := p.(runtime.Error); ok {
 				// engine bug or unguarded runtime error inside the engine
-				panic(engineError{fmt.Sprintf("%v in %s at %s", re, fr.fn, in.Prog.Fset.Position(fr.pos)), stack()})
+				panic(engineError{fmt.Sprintf("%v in %s at %s\ntarget stack: %s", re, fr.fn, in.Prog.Fset.Position(fr.pos), targetStack(fr)), stack()})
 			}
 			panic(p)
 		}
@@ -439,6 +443,14 @@ func (in *Interp) runFrame(fr *frame) {
 			}
 		}
 	}
+}
+
+func targetStack(fr *frame) string {
+	var parts []string
+	for f := fr; f != nil && len(parts) < 25; f = f.caller {
+		parts = append(parts, f.fn.String())
+	}
+	return strings.Join(parts, " <- ")
 }
 
 type engineError struct {
